@@ -5,6 +5,7 @@ import (
 	"fmt"
 	"math/rand"
 	"sort"
+	"strings"
 	"sync"
 	"time"
 
@@ -18,6 +19,7 @@ import (
 	"github.com/tikv/pd/server/schedule/opt"
 	"github.com/tikv/pd/server/schedule/placement"
 	"github.com/tikv/pd/server/versioninfo"
+	"verif/harness/lib/sched"
 )
 
 // Feature modes of the operator builder (as in C08).
@@ -49,6 +51,9 @@ type storeDesc struct {
 	Engine string `json:"engine,omitempty"`
 	Zone   string `json:"zone,omitempty"`
 	Host   string `json:"host,omitempty"`
+	// EngineKey: how the engine label key is spelled on this store ("" = "engine"; pd reads label values by
+	// key case-insensitively, so "Engine" names the same label for its engine filters)
+	EngineKey string `json:"engine_label_key,omitempty"`
 	// Labels are further store labels (disk=..., noleader=...); they take no part in placement.
 	Labels map[string]string `json:"labels,omitempty"`
 	// set by lenient(): the store accepted leaders before or after a change made in the middle of the judged call
@@ -115,7 +120,11 @@ func (s *storeDesc) allLabels() map[string]string {
 		labels["host"] = s.Host
 	}
 	if s.Engine != "" {
-		labels["engine"] = s.Engine
+		key := s.EngineKey
+		if key == "" {
+			key = "engine"
+		}
+		labels[key] = s.Engine
 	}
 	for k, v := range s.Labels {
 		labels[k] = v
@@ -139,10 +148,30 @@ func (w *world) rejects(s *storeDesc) (bool, string) {
 	return false, ""
 }
 
-// plainUp: up, ordinary engine, accepts leaders.
+// rejectsAmbiguously: no configured property equals a label of the store exactly, but one does when letter case
+// is ignored. pd compares the property exactly while it reads store labels by key case-insensitively elsewhere:
+// whether such a store "has the reject-leader property" is not defined, a leader sent there is counted, not judged.
+func (w *world) rejectsAmbiguously(s *storeDesc) bool {
+	if s == nil {
+		return false
+	}
+	if rej, _ := w.rejects(s); rej {
+		return false
+	}
+	for k, v := range s.allLabels() {
+		for _, p := range w.RejectLeader {
+			if p.Key != "" && p.Value != "" && strings.EqualFold(k, p.Key) && strings.EqualFold(v, p.Value) {
+				return true
+			}
+		}
+	}
+	return false
+}
+
+// plainUp: up, ordinary engine, accepts leaders (beyond doubt).
 func (w *world) plainUp(s *storeDesc) bool {
 	rej, _ := w.rejects(s)
-	return s.State == stUp && s.Engine == "" && !rej
+	return s.State == stUp && s.Engine == "" && !rej && !w.rejectsAmbiguously(s)
 }
 
 func (w *world) class() string {
@@ -174,6 +203,13 @@ type cluster struct {
 	before   *world // description when the injection was armed
 	// regions as they were before a region change injected in the middle of the current call
 	regionBefore map[uint64]*core.RegionInfo
+
+	// gate scheduler of the overlap family (overlap.go); nil elsewhere
+	gate *sched.Sched
+
+	// scheduler lifecycle (sched.go)
+	schedStorage *core.Storage
+	insts        []*schedInst
 
 	allocMu      sync.Mutex
 	allocFailPct int
@@ -423,7 +459,16 @@ func randomWorld(rng *rand.Rand, scale int) *world {
 		}
 		// labels outside placement: a disk class on most stores, a "noleader" mark on a few
 		if rng.Intn(100) < 75 {
-			sd.Labels = map[string]string{"disk": []string{"hdd", "ssd", "nvme"}[rng.Intn(3)]}
+			sd.Labels = map[string]string{spell(rng, "disk"): spell(rng, []string{"hdd", "ssd", "nvme"}[rng.Intn(3)])}
+		}
+		if sd.Engine != "" && rng.Intn(5) == 0 {
+			sd.EngineKey = "Engine"
+		}
+		if sd.Engine == "" && w.Rules == "tiflash" && rng.Intn(25) == 0 {
+			if sd.Labels == nil {
+				sd.Labels = map[string]string{}
+			}
+			sd.Labels["engine"] = "TiFlash" // not the value pd's engine filters look for: an ordinary store to them
 		}
 		if rng.Intn(100) < 12 {
 			if sd.Labels == nil {
@@ -520,10 +565,26 @@ func randomRejectLeaderProperties(rng *rand.Rand, w *world) []labelProp {
 			continue
 		}
 		vs := values[k]
-		out = append(out, labelProp{Key: k, Value: vs[rng.Intn(len(vs))]})
+		out = append(out, labelProp{Key: spell(rng, k), Value: spell(rng, vs[rng.Intn(len(vs))])})
+	}
+	if rng.Intn(4) == 0 {
+		// entries no store label can equal: empty parts, separators of the serialised forms
+		odd := []labelProp{{"", ""}, {"disk", ""}, {"", "hdd"}, {"disk,zone", "hdd"}, {"disk", "hdd,ssd"}, {"disk/ssd", "x"}, {"disk=hdd", "true"}}
+		out = append(out, odd[rng.Intn(len(odd))])
 	}
 	rng.Shuffle(len(out), func(i, j int) { out[i], out[j] = out[j], out[i] })
 	return out
+}
+
+// spell returns the word as it is, or (rarely) in another letter case.
+func spell(rng *rand.Rand, word string) string {
+	switch rng.Intn(12) {
+	case 0:
+		return strings.ToUpper(word)
+	case 1:
+		return strings.ToUpper(word[:1]) + word[1:]
+	}
+	return word
 }
 
 func (w *world) ordinaryStores() []uint64 {
